@@ -183,6 +183,30 @@ def priv_pairing(chk, P, rule="R-PRIV"):
         k = lv(x)
         if k and k.startswith("topology->"):
             released.add(tuple(k[len("topology->"):].split(".")))
+    # releases made by a helper of the unit that receives &topology->X (or topology): free(X-><field>) inside the helper
+    for c in d.calls():
+        g = P.func(c.get("fn")) if c.get("fn") else None
+        if g is None or g.entry is None or g.unit is not d.unit:
+            continue
+        for i, a in enumerate(args(c)):
+            a2 = strip(a)
+            base = None
+            if a2 is not None and a2["k"] == "Unary" and a2["op"] == "&":
+                k = lv(a2["c"][0])
+                if k and k.startswith("topology->"):
+                    base = tuple(k[len("topology->"):].split("."))
+            elif a2 is not None and lv(a2) == "topology":
+                base = ()
+            if base is None or i >= len(g.params):
+                continue
+            pn = g.params[i]["n"]
+            for c2 in g.calls(("free", "hwloc_bitmap_free", "hwloc__free_infos")):
+                x = strip(args(c2)[0])
+                if x["k"] == "Unary" and x["op"] == "&":
+                    x = strip(x["c"][0])
+                k = lv(x)
+                if k and k.startswith(pn + "->"):
+                    released.add(base + tuple(k[len(pn) + 2:].split(".")))
     n = 0
     for p, fn, loc in _priv_allocs(P):
         n += 1
